@@ -175,6 +175,26 @@ func c13RawPath(w *World, r *Report, ctxI *types.Interface) {
 				}
 			}
 			r.Ob(ri, key+"|path-decoded", lit.Pos(), okP, msgP)
+			// RawPath is always carried: it comes from a raw-path source (EscapedPath() / the request
+			// target, possibly cut at '?'), never from another URL's RawPath field, which net/url leaves
+			// empty whenever the default encoding of Path reproduces the original
+			okA, msgA := rawV != nil, "the request URL is built without RawPath: the lookup and the capture decoding then work on the decoded path and decode a second time"
+			if rawV != nil {
+				for _, o := range w.Origins(rawV, through) {
+					if isRawPathSource(o) != "" {
+						continue
+					}
+					if cs, isC := o.(*ssa.Const); isC && cs.Value != nil {
+						continue
+					}
+					desc := o.String()
+					if _, pp := accessPath(o); len(pp) > 0 {
+						desc = strings.Join(pp, ".")
+					}
+					okA, msgA = false, "RawPath is taken from "+desc+" instead of EscapedPath() / the request target: it is empty for paths like /files/100%25, so captures are decoded twice and the entry points disagree"
+				}
+			}
+			r.Ob(ri, key+"|rawpath-always-set", lit.Pos(), okA, msgA)
 			// if Path derives from PathUnescape(x), RawPath must be that x
 			for _, o := range w.Origins(pathV, nil) {
 				if c, _ := resultOfCall(o); c != nil && callName(c.Common()) == "net/url.PathUnescape" {
